@@ -11,6 +11,7 @@ pub struct SecpError { _p: u8 }
 pub uninterp spec fn ecdsa_valid(msg: Message, sig: Signature, pk: PublicKey) -> bool;
 pub uninterp spec fn pk_of(sk: SecretKey) -> PublicKey;
 pub uninterp spec fn sk_of_bytes(b: Seq<u8>) -> SecretKey;
+pub uninterp spec fn sk_bytes(sk: SecretKey) -> [u8; 32];
 
 impl VxSecp {
     #[verifier::external_body]
@@ -25,7 +26,7 @@ impl SecretKey {
     { unimplemented!() }
     #[verifier::external_body]
     pub fn secret_bytes(&self) -> (r: [u8; 32])
-        ensures sk_of_bytes(r@) == *self
+        ensures sk_of_bytes(r@) == *self, r == sk_bytes(*self)
     { unimplemented!() }
 }
 impl PublicKey {
